@@ -298,6 +298,7 @@ func run(c *mc.Ctx) {
 	timed("smallkey", func() { runSmallKey(c, keys, alphas) })
 	timed("keys", func() { runKeys(c, keys, alphas) })
 	timed("memory", func() { runMemory(c, keys, alphas) })
+	timed("buffer-reuse", func() { runBufferReuse(c, keys, alphas) })
 	timed("alpha-sweep", func() { runAlphaSweep(c, keys) })
 	c.Rep.Extra["wall_s_by_group"] = timing // informational only; no verdict depends on it
 
@@ -309,7 +310,7 @@ func run(c *mc.Ctx) {
 		"smallkey/equation-holds/small-order", "smallkey/equation-holds/non-canonical",
 		"keys/pk-length", "keys/pk-not-a-point", "keys/pk-noncanonical",
 		"alpha-sweep/rfc9381", "alpha-sweep/draft10", "returned-slices/rfc9381", "returned-slices/draft10", "returned-slices/nil-vs-empty-alpha",
-		"memory/prove", "memory/prove-randomized", "memory/prove-then-verify", "memory/verify", "memory/verify-rejecting", "memory/proof-to-hash", "memory/key-store-history",
+		"memory/prove", "memory/prove-randomized", "memory/prove-then-verify", "memory/verify", "memory/verify-rejecting", "memory/proof-to-hash", "memory/key-store-history", "buffer-reuse/"+refvrf.RFC9381.String(), "buffer-reuse/"+refvrf.Draft10.String(),
 	} {
 		c.Require(cl, 1)
 	}
